@@ -42,6 +42,11 @@ class PipelineUnit(WeaverUnit):
             if s == "function":
                 rec["coef"] = [0.5, 1.0]
                 rec["fn_kind"] = "poly"
+                if max(abs(v) for v in x) >= 2.0 ** 20:
+                    # margin (DESIGN 3.6): on abscissae of order 1e9 the sampling function 0.5 + t has values of order 1e9, and matching
+                    # them down to averages of order 1 multiplies the 1e-7 relative resolution of the abscissae by 1e9 — the result is
+                    # right to about 1e2 only, in the implementation and in any other float computation. A bounded function there.
+                    rec["coef"] = [0.5]
             script = ([{"op": "append", "periodic": periodic}] if periodic is not None else []) + [
                 rec, {"op": "integral_match", "rt": rt, "rr": "rectangle", "alpha": rng.choice([1.0, 1.0, 2.0, 0.5])}]
             return {"x": x, "y": y, "script": script, "seed": rng.randrange(1 << 30), "len": len(script), "pool": [], "as_list": False,
@@ -81,10 +86,11 @@ class PipelineUnit(WeaverUnit):
     def oracle(self, c, o):
         F = super().oracle(c, o)
         steps = o.get("steps", [])
-        if o.get("ctor") or not steps or "exc" in steps[-1] or steps[-1]["op"]["op"] != "integral_match":
-            if steps and "exc" in steps[-1]:
-                F.append(Failure(aspect="pipeline-raises", what="recreate + match raised %s (x=%s y=%s script=%s)" % (steps[-1].get("exc_msg"), c["x"], c["y"], c["script"]),
-                                 signature={"aspect": "pipeline-raises"}))
+        raised = [s_ for s_ in steps if "exc" in s_]
+        if o.get("ctor") or not steps or raised or steps[-1]["op"]["op"] != "integral_match":
+            if raised:       # any step of the valid pipeline, not only the last one
+                F.append(Failure(aspect="pipeline-raises", what="%s of the recreate + match pipeline raised %s (x=%s y=%s script=%s)" % (
+                    raised[0]["op"]["op"], raised[0].get("exc_msg"), c["x"], c["y"], c["script"]), signature={"aspect": "pipeline-raises"}))
             return F
         st = steps[-1]
         n = steps[-2]["op"]["n"]
@@ -94,6 +100,14 @@ class PipelineUnit(WeaverUnit):
         m = len(rx)
         if len(xs) != (m - 1) * n + 1:
             return F
+        # conditioning of the matching step: the stretch profile is computed from differences of the abscissae, known only to
+        # ulp(|x|) / spacing in relative terms, and is multiplied by the displacement D the matching applies. With epoch-second abscissae
+        # and a sampling function whose values are of the order of the abscissae themselves (1.7e9) matched down to averages of order 1,
+        # that is 1.7e9 * 1e-7: "up to rounding" is relative to what was moved
+        before = steps[-2]["state"][1]
+        disp = float(np.max(np.abs(np.array(before, dtype=float) - np.array(ys, dtype=float)))) if before is not None and len(before) == len(ys) else 0.0
+        cond = float(np.spacing(np.max(np.abs(xs))) / np.min(np.diff(xs)))
+        slack = 16 * cond * disp
         for k in range(m - 1):
             bx = [Fraction(v) for v in xs[k * n:(k + 1) * n + 1]]
             by = [Fraction(v) for v in ys[k * n:(k + 1) * n + 1]]
@@ -104,7 +118,7 @@ class PipelineUnit(WeaverUnit):
             w = Fraction(rx[k + 1]) - Fraction(rx[k])
             mean = integ / w
             scale = 1 + abs(Fraction(ry[k])) + max(abs(v) for v in by)
-            if abs(mean - Fraction(ry[k])) > Fraction(1, 10 ** 8) * scale:
+            if abs(mean - Fraction(ry[k])) > Fraction(1, 10 ** 8) * scale + Fraction(slack):
                 F.append(Failure(aspect="block-mean", what="interval %d: %s mean of the matched series is %.12g, original average is %.12g (strategy %s n=%d; x=%s y=%s)" % (
                     k, rt, float(mean), ry[k], steps[-2]["op"].get("strategy"), n, c["x"][:12], c["y"][:12]), signature={"aspect": "block-mean", "rt": rt}))
                 break
@@ -113,7 +127,7 @@ class PipelineUnit(WeaverUnit):
             ax, ay = average(np.array(xs), np.array(ys), n)
             if ax.tolist() != rx:
                 F.append(Failure(aspect="average-x", what="block averaging does not return the original abscissae exactly", signature={"aspect": "average-x"}))
-            elif np.max(np.abs(ay[:m - 1] - np.array(ry[:m - 1]))) > 1e-8 * (1 + np.max(np.abs(ry))) + 1e-13 * np.max(np.abs(ys)):
+            elif np.max(np.abs(ay[:m - 1] - np.array(ry[:m - 1]))) > 1e-8 * (1 + np.max(np.abs(ry))) + 1e-13 * np.max(np.abs(ys)) + slack:
                 # (second term: the recreated samples themselves may be huge next to their averages — a sampling function evaluated at
                 #  epoch-second abscissae — and their mean is then only known to about eps * max|ys|)
                 F.append(Failure(aspect="average-y", what="block averages %s differ from the original averages %s" % (ay[:m - 1].tolist()[:8], ry[:m - 1][:8]), signature={"aspect": "average-y"}))
